@@ -39,7 +39,7 @@ func SerializeCanonical(oldroot *etree.Element) ([]byte, error) {
 	doc.WriteSettings.CanonicalText = true
 	doc.WriteSettings.CanonicalAttrVal = true
 	pullDown(oldroot, root)
-	walkAttributes(root)
+	walkAttributes(root, nil)
 	return doc.WriteToBytes()
 }
 
@@ -62,7 +62,8 @@ func putDecl(space string) string {
 	return "xmlns:" + space
 }
 
-func walkAttributes(elem *etree.Element) {
+// rendered holds the namespace declarations already emitted by the ancestors of elem
+func walkAttributes(elem *etree.Element, rendered map[string]string) {
 	// remove unused spaces and push ones this element doesn't use down to child elements
 	for i := 0; i < len(elem.Attr); {
 		attr := elem.Attr[i]
@@ -70,6 +71,22 @@ func walkAttributes(elem *etree.Element) {
 			pushDown(elem, elem, space, putDecl(space), attr.Value)
 			elem.Attr = append(elem.Attr[:i], elem.Attr[i+1:]...)
 			continue
+		}
+		i++
+	}
+	// drop declarations that an ancestor has already emitted with the same value
+	scope := make(map[string]string, len(rendered)+len(elem.Attr))
+	for space, value := range rendered {
+		scope[space] = value
+	}
+	for i := 0; i < len(elem.Attr); {
+		attr := elem.Attr[i]
+		if space, isDecl := getDecl(attr); isDecl {
+			if value, ok := rendered[space]; ok && value == attr.Value {
+				elem.Attr = append(elem.Attr[:i], elem.Attr[i+1:]...)
+				continue
+			}
+			scope[space] = attr.Value
 		}
 		i++
 	}
@@ -88,9 +105,13 @@ func walkAttributes(elem *etree.Element) {
 		} else if y.Space == "xmlns" && x.Space != "xmlns" {
 			return false
 		}
-		// then order by namespace and finally by key
-		if x.Space != y.Space {
-			return x.Space < y.Space
+		if x.Space == "xmlns" && y.Space == "xmlns" {
+			// namespace nodes are ordered by prefix
+			return x.Key < y.Key
+		}
+		// then order by namespace URI (not prefix) and finally by key
+		if xs, ys := scope[x.Space], scope[y.Space]; xs != ys {
+			return xs < ys
 		}
 		return x.Key < y.Key
 	})
@@ -98,8 +119,8 @@ func walkAttributes(elem *etree.Element) {
 		token := elem.Child[i]
 		switch t := token.(type) {
 		case *etree.Element:
-			walkAttributes(t)
-		case *etree.CharData:
+			walkAttributes(t, scope)
+		case *etree.CharData, *etree.ProcInst:
 			// keep
 		default:
 			// remove
